@@ -197,6 +197,13 @@ def check(rep, ctx):
     for row in string_default_literals(ctx):
         rep.check(R13, row["ok"], construct="codegen.generate_schema:format_default", stmt=row["case"], message=row["message"],
                   file=gsrc.rel, line=row["line"])
+    from ..gen_tables import generated_modules
+    R14 = rep.rule("C16-G14-modules", "generate_models evaluated on synthetic definitions: for every declared version one class per visible "
+                   "structure, nested classes first, with the definition's fields valid for that version in order, their names, nullability, "
+                   "tags, defaults, and the version / flexibility / type / API key / header class variables", floor=15,
+                   necessary_because="the statement of C16 itself, decided on definitions small enough to read by eye")
+    for row in generated_modules(ctx):
+        rep.check(R14, row["ok"], construct="codegen.generate_schema:generate_models", stmt=row["case"], message=row["message"], file=gsrc.rel, line=0)
     R8 = rep.rule("C16-G8-field", "format_dataclass_field: an explicit default is emitted as given whatever the tagging/ignorability; "
                   "metadata carries the kafka type and the tag iff tagged", floor=40,
                   necessary_because="ApiVersionsResponse.FinalizedFeaturesEpoch is tagged, ignorable and has default -1: it must stay -1")
